@@ -123,13 +123,23 @@ def rule_cas_progress(rep, rid, prog, fields=None, floor_name=None):
             if not fn.inst_reaches(cx, cx):
                 continue
             E = fn.inst(cx.ops[1])
-            if E is None or E.op != "phi":
-                continue          # constant expected value, or a value recomputed by a load each time round
-            if not fn.inst_reaches(cx, E):
-                continue
+            if E is None:
+                continue          # constant expected value (e.g. NULL -> x): nothing to refresh
+            if E.op != "phi" and fn.inst_reaches(cx, E):
+                continue          # recomputed (re-loaded) each time round
             n += 1
             rep.saw(fn)
             ok = False
+            if E.op != "phi":
+                # computed once before the loop and never refreshed: the retry compares against a value that is known to be stale
+                rep.require(rid, False, cx.loc, cx.origin, "cas-retried-with-stale-expected:%s" % cx.origin,
+                            "%s retries a failed compare-exchange on %s with an expected value computed once before the loop (the non-'v' form / a dropped reload): "
+                            "once another thread has changed the word the loop can never succeed - the thread spins forever and the wake-up / hand-off it was "
+                            "about to perform never happens" % (cx.origin, "/".join(sorted(prog.fields(cx))) or "a shared word"), sample={"fn": cx.origin, "at": cx.loc})
+                continue
+            if not fn.inst_reaches(cx, E):
+                n -= 1
+                continue
             seen, work = set(), [v for v, frm in E.ops]
             while work:
                 o = work.pop()
